@@ -91,3 +91,32 @@ Theorem C18_refuted_before_fix : forall compile hdr_old g code p q,
   output_old hdr_old c0 g code <> output_old hdr_old c1 g code.
 Proof. exact old_stale_after_prefix_shrink. Qed.
 Print Assumptions C18_refuted_before_fix.
+
+(* ---- directory mode: the entries of the directory in listing order, the walk stops at the first
+   error.  A successful run compiled (or found fresh) EVERY grammar of the directory; any invalid or
+   unreadable grammar makes the run fail; what precedes the failing entry was compiled, the failing
+   entry and what follows it are untouched.  A walk that goes on and returns the last entry's result
+   is refuted. *)
+Theorem C18_directory_ok : forall hdr compile fmt c entries entries',
+  run_dir hdr compile fmt true c entries = (ROk, entries') ->
+  Forall2 (fun s s' => run hdr compile fmt c s = (ROk, s')) entries entries'.
+Proof. exact dir_ok_all. Qed.
+Print Assumptions C18_directory_ok.
+
+Theorem C18_directory_fails : forall hdr compile fmt c entries s,
+  In s entries -> fst (run hdr compile fmt c s) = RErr -> fst (run_dir hdr compile fmt true c entries) = RErr.
+Proof. exact dir_fails_on_any_failure. Qed.
+Print Assumptions C18_directory_fails.
+
+Theorem C18_directory_failure_untouched : forall hdr compile fmt c entries entries',
+  run_dir hdr compile fmt true c entries = (RErr, entries') ->
+  exists pre pre' s post, entries = pre ++ s :: post /\ entries' = pre' ++ s :: post /\
+    Forall2 (fun a a' => run hdr compile fmt c a = (ROk, a')) pre pre' /\ fst (run hdr compile fmt c s) = RErr.
+Proof. exact dir_err_some. Qed.
+Print Assumptions C18_directory_failure_untouched.
+
+Theorem C18_directory_walk_on_refuted : forall hdr compile fmt c bad good good',
+  fst (run hdr compile fmt c bad) = RErr -> run hdr compile fmt c good = (ROk, good') ->
+  fst (run_dir hdr compile fmt false c [bad; good]) = ROk /\ fst (run_dir hdr compile fmt true c [bad; good]) = RErr.
+Proof. exact dir_walk_on_refuted. Qed.
+Print Assumptions C18_directory_walk_on_refuted.
